@@ -25,6 +25,7 @@ type RecStore struct {
 	Record           bool
 	OpLog            []string // kinds of operations, for fault reports
 	Failed           []string
+	Paused           bool // operations issued by the harness's own probes: neither counted nor failed
 }
 
 type Mutation struct {
@@ -62,6 +63,9 @@ func ImageAt(base *RecStore, log []Mutation, n int) *RecStore {
 }
 
 func (s *RecStore) op(kind, key string) error {
+	if s.Paused {
+		return nil
+	}
 	s.Ops++
 	if s.Record {
 		s.OpLog = append(s.OpLog, kind+" "+key)
